@@ -114,6 +114,27 @@ func (w *World) Sites(fn *ssa.Function, e Effect) []Site {
 						out = append(out, Site{in, b, "return " + clip(Render(rt.Results[e.Idx]).String(), 60)})
 					}
 				}
+			case "decision":
+				// a boolean the function's result depends on: a returned bool value, or a branch condition both of whose
+				// successors return a bool constant (the same comparison written `if c { return true }; return false`)
+				if rt, ok := in.(*ssa.Return); ok && e.Idx < len(rt.Results) {
+					if _, isConst := retValue(rt, e.Idx).(*ssa.Const); !isConst && Render(retValue(rt, e.Idx)).Has(e.Val...) {
+						out = append(out, Site{in, b, "return " + clip(Render(rt.Results[e.Idx]).String(), 60)})
+					}
+				}
+				if ifi, ok := in.(*ssa.If); ok && len(b.Succs) == 2 {
+					constRet := func(sb *ssa.BasicBlock) bool {
+						rt := returnOf(sb)
+						if rt == nil || len(sb.Instrs) != 1 || e.Idx >= len(rt.Results) {
+							return false
+						}
+						_, isC := retValue(rt, e.Idx).(*ssa.Const)
+						return isC
+					}
+					if constRet(b.Succs[0]) && constRet(b.Succs[1]) && Render(ifi.Cond).Has(e.Val...) {
+						out = append(out, Site{in, b, "branch " + clip(Render(ifi.Cond).String(), 60)})
+					}
+				}
 			case "mapupdate":
 				if mu, ok := in.(*ssa.MapUpdate); ok {
 					t := &Term{Op: "mapupdate", Args: []*Term{Render(mu.Map), Render(mu.Key), Render(mu.Value)}}
@@ -1247,6 +1268,29 @@ func HasRecoverBarrier(fn *ssa.Function) bool {
 			if !ok {
 				continue
 			}
+			// `defer handler(…, &err)`: a named function that calls recover() itself and stores a non-nil error through the
+			// pointer parameter that receives the address of the named result
+			if df, isFn := d.Call.Value.(*ssa.Function); isFn && len(df.Blocks) > 0 {
+				for ai, a := range d.Call.Args {
+					if !named[a] || ai >= len(df.Params) {
+						continue
+					}
+					hasRec, sets := false, false
+					for _, cb := range df.Blocks {
+						for _, ci := range cb.Instrs {
+							if c, ok := ci.(*ssa.Call); ok && CalleeName(&c.Call) == "builtin.recover" {
+								hasRec = true
+							}
+							if st, ok := ci.(*ssa.Store); ok && st.Addr == ssa.Value(df.Params[ai]) && isErrorType(st.Val.Type()) && !isNilConst(st.Val) {
+								sets = true
+							}
+						}
+					}
+					if hasRec && sets {
+						return true
+					}
+				}
+			}
 			mc, ok := d.Call.Value.(*ssa.MakeClosure)
 			if !ok {
 				continue
@@ -1764,6 +1808,11 @@ func (r *Report) RetHas(key, fnKey string, idx int, atoms ...string) {
 // Disjunctive gating and boolean-flag provenance
 
 func RetValEff(idx int, atoms ...string) Effect { return Effect{Kind: "retval", Idx: idx, Val: atoms} }
+
+// DecisionEff: a boolean result or the branch condition that stands for it (see Sites).
+func DecisionEff(idx int, atoms ...string) Effect {
+	return Effect{Kind: "decision", Idx: idx, Val: atoms}
+}
 func RetNotEff(idx int, atoms ...string) Effect { return Effect{Kind: "retnot", Idx: idx, Val: atoms} }
 
 // passEdges returns the (block -> successor index) pass edges of every If matching any of the conds.
@@ -2230,12 +2279,63 @@ func (r *Report) CondCount(key, fnKey string, n int) {
 		r.Unres(k, d, "function not found")
 		return
 	}
-	got := len(w.ifs(fn))
+	got := decisionCount(w, fn)
 	if got == n {
 		r.OK(k, d, w.FnPos(fn), fmt.Sprintf("%d", got))
 	} else {
 		r.Bad(k, d, w.FnPos(fn), fmt.Sprintf("%d conditional branches found", got))
 	}
+}
+
+// decisionCount: the branches of fn plus the boolean computations it RETURNS without branching on them (`return a < b`,
+// the second operand of `return x && y`, `return f()` of a bool): so that `return a < b` and
+// `if a < b { return true }; return false` count the same.
+func decisionCount(w *World, fn *ssa.Function) int {
+	n := len(w.ifs(fn))
+	conds := map[ssa.Value]bool{}
+	for _, b := range fn.Blocks {
+		if ifi := ifOf(b); ifi != nil {
+			conds[ifi.Cond] = true
+		}
+	}
+	seen := map[ssa.Value]bool{}
+	var visit func(v ssa.Value)
+	visit = func(v ssa.Value) {
+		if v == nil || seen[v] {
+			return
+		}
+		seen[v] = true
+		switch x := v.(type) {
+		case *ssa.Const:
+		case *ssa.Phi:
+			for _, e := range x.Edges {
+				visit(e)
+			}
+		case *ssa.UnOp:
+			if x.Op == token.NOT {
+				visit(x.X)
+				return
+			}
+			if !conds[v] {
+				n++
+			}
+		default:
+			if !conds[v] {
+				n++
+			}
+		}
+	}
+	for _, b := range fn.Blocks {
+		if rt := returnOf(b); rt != nil && b != fn.Recover {
+			for i := range rt.Results {
+				rv := retValue(rt, i)
+				if bt, ok := rv.Type().Underlying().(*types.Basic); ok && bt.Kind() == types.Bool {
+					visit(rv)
+				}
+			}
+		}
+	}
+	return n
 }
 
 // FlagOnlyUnderVal: argument #idx of callee in fn is a phi; the constant val flows into it only from blocks behind
@@ -3244,6 +3344,47 @@ func (r *Report) Conjunction(key, fnKey string, a, b []string) {
 				}
 				return
 			}
+		}
+	}
+	if n == 3 {
+		// fully branched: if !(x) { return false }; if y { return true }; return false
+		for _, bl := range fn.Blocks {
+			rt := returnOf(bl)
+			if rt == nil || len(rt.Results) != 1 || len(bl.Instrs) != 1 || len(bl.Preds) != 1 {
+				continue
+			}
+			cv, isC := rt.Results[0].(*ssa.Const)
+			if !isC || constString(cv) != "true" {
+				continue
+			}
+			p2 := bl.Preds[0]
+			second := ifOf(p2)
+			if second == nil || p2.Succs[0] != bl || len(p2.Preds) != 1 {
+				continue
+			}
+			p1 := p2.Preds[0]
+			first := ifOf(p1)
+			if first == nil || p1.Succs[0] != p2 {
+				continue
+			}
+			isFalseRet := func(sb *ssa.BasicBlock) bool {
+				rt := returnOf(sb)
+				if rt == nil || len(rt.Results) != 1 {
+					return false
+				}
+				c, ok := rt.Results[0].(*ssa.Const)
+				return ok && constString(c) == "false"
+			}
+			if !isFalseRet(p1.Succs[1]) || !isFalseRet(p2.Succs[1]) {
+				continue
+			}
+			pa, pb := NormalizeCond(first.Cond), NormalizeCond(second.Cond)
+			if (mm(pa, a) && mm(pb, b)) || (mm(pa, b) && mm(pb, a)) {
+				r.OK(k, d, w.Pos(second.Cond.Pos()), "both strict comparisons as two successive branches; true only when both hold")
+			} else {
+				r.Bad(k, d, w.posOr(second.Cond.Pos(), fn), "comparisons are "+pa.String()+" and "+pb.String())
+			}
+			return
 		}
 	}
 	if n != 1 || len(ret.Results) != 1 {
